@@ -152,7 +152,7 @@ func ubIssuanceIDsAPI(c *uissCase) (aid, tid []byte, ok bool) {
 func ubBuildIssuanceInput(c *uissCase, f [][]byte) *transaction.TxInput {
 	return &transaction.TxInput{
 		Hash: f[5], Index: c.index,
-		Issuance: &transaction.TxIssuance{AssetBlindingNonce: f[6], AssetEntropy: f[4], AssetAmount: f[0], TokenAmount: f[1]},
+		Issuance:           &transaction.TxIssuance{AssetBlindingNonce: f[6], AssetEntropy: f[4], AssetAmount: f[0], TokenAmount: f[1]},
 		IssuanceRangeProof: f[2], InflationRangeProof: f[3],
 	}
 }
